@@ -1,5 +1,6 @@
 """C16 — membership change events add up to the live membership."""
 import json
+import subprocess
 
 import vlib
 
@@ -9,6 +10,12 @@ ASSUMPTIONS = [
     "the subscriber applies a delta the way the task distributor and the replication poller do: remove `left`, then insert `joined`, keyed by node id",
     "the real watch_membership_changes task runs over a caller-supplied snapshot channel (cfg(datacake_verif) hook); the subscriber is a real WatchStream "
     "over a clone of the real receiver, as DatacakeNode::membership_changes() builds it",
+    "consumers: the store's own watcher (datacake-eventual-consistency/src/lib.rs) reads a change as soon as it is published, so the behaviours "
+    "replayed on the task distributor and the replication cycle are those in which every publish is followed by the subscriber's read; the "
+    "services tick after every change (mode A) or only at the end (mode B, several changes in one drain); other tick placements are explored "
+    "by TLC only (DistTick / PollRound of Membership.tla). Judged: the distributor's live members after its drain, which real peers received "
+    "the batch built at that tick (their storage is read), the replication cycle's live members at the start of its round; what its keyspace "
+    "tracker remembers is reported as drift only",
     "behaviours matching a listed known finding (late subscriber / skipped delta) are reported as KNOWN-FINDING, never as violations; every other "
     "mismatch, and every wrong `left`/`joined` content, is a violation",
 ]
@@ -19,6 +26,65 @@ TIERS = {
                  dict(Ids={1, 2}, Addrs={1}, MaxPub=5, MaxSteps=10)],
 }
 KNOWN = {"late": "C16-late-subscriber", "skipped": "C16-skipped-delta"}
+# the consumers of the change events: task distributor and replication cycle behind the store's watcher
+CONSUMERS = {
+    "quick": [dict(Ids={1, 2}, Addrs={1, 2}, MaxPub=4, MaxSteps=9, limit=1600, slices=2, mc=dict(MaxPub=3, MaxSteps=9))],
+    "thorough": [dict(Ids={1, 2}, Addrs={1, 2}, MaxPub=4, MaxSteps=9, limit=0, slices=4, mc=dict(MaxPub=4, MaxSteps=9)),
+                 dict(Ids={1, 2, 3}, Addrs={1, 2}, MaxPub=3, MaxSteps=7, limit=6000, slices=4, mc=dict(MaxPub=2, MaxSteps=8))],
+}
+
+
+def consumers(ctx, cov):
+    """Membership.tla with the consumers (M), then behaviours replayed on the real store watcher + task distributor +
+    replication cycle with real peers (G)."""
+    binary = vlib.build_harness(ctx, "h-ec")
+    tot = dict(states=0, behaviours=0, judged=0, multi=0, drift=0)
+    for i, c in enumerate(CONSUMERS[ctx.tier]):
+        consts = dict(Ids=c["Ids"], Addrs=c["Addrs"], MaxPub=c["MaxPub"], MaxSteps=c["MaxSteps"], FixD4a=True)
+        mc_cfg = vlib.cfg_text(constants=dict(consts, EmitHist=False, WithConsumers=True, **c["mc"]),
+                               invariants=["C16_AddsUpModuloKnown", "C16_ConsumersAddUp", "C16_TrackerLive", "C16_ConsumersFollow"],
+                               properties=["C16_LeftReported"])
+        mc, text = vlib.run_tlc(ctx, "Membership", mc_cfg, "mc_cons_%d" % i, workers=8, extra=["-coverage", "1"], timeout=3000)
+        if not vlib.require_clean_mc(ctx, mc, text, "Membership (consumers)"):
+            raise vlib.ToolError("TLC reports %s on the consumer layer of Membership.tla" % mc["violated"])
+        vlib.require_actions(mc, ["DistTick", "PollRound"], "Membership (consumers)")
+        gen_cfg = vlib.cfg_text(constants=dict(consts, EmitHist=True, WithConsumers=False), constraints=["NoKnown", "EmitC"])
+        gen, gtext = vlib.run_tlc(ctx, "Membership", gen_cfg, "gen_cons_%d" % i, workers=1, timeout=3000, stdout_to=ctx.path("gen_cons_%d.txt" % i))
+        procs = []
+        for k in range(c["slices"]):
+            out = ctx.path("cons_%d_%d.json" % (i, k))
+            cmd = [binary, "replay-consumers", "--input", ctx.path("gen_cons_%d.txt" % i), "--out", out, "--concurrency", "1500",
+                   "--limit", str(c["limit"]), "--slice", "%d/%d" % (k, c["slices"]), "--max-id", str(max(c["Ids"]))]
+            procs.append((cmd, out, subprocess.Popen(cmd, cwd=ctx.work, stdout=subprocess.PIPE, stderr=subprocess.PIPE, text=True)))
+        for cmd, out, p in procs:
+            try:
+                so, se = p.communicate(timeout=3000)
+            except subprocess.TimeoutExpired:
+                p.kill()
+                raise vlib.ToolError("consumer replay timed out")
+            if p.returncode == 2:
+                raise vlib.ToolError("consumer replay failed: " + (so + se)[-2000:])
+            if p.returncode != 0:
+                raise vlib.HarnessCrash(cmd, p.returncode, (so + se).splitlines()[-12:])
+            rep = vlib.load_json(out)
+            if rep["tool_errors"]:
+                raise vlib.ToolError("consumer replay: %d behaviours could not be judged: %s" % (rep["tool_errors"], rep["tool_error_samples"]))
+            for v in rep["violations"][:3]:
+                ctx.violations.append(dict(engine="h-ec replay-consumers", **v))
+            tot["behaviours"] += rep["evaluations"]
+            tot["judged"] += rep["judged_points"]
+            tot["multi"] += rep["behaviours_with_several_changes_in_one_drain"]
+            tot["drift"] += rep["drift"]
+            cov["samples"] += rep["samples"][:1]
+        tot["states"] += mc["distinct"]
+        ctx.log("consumers %s: MC %d states; %d behaviours on the real store watcher / distributor / replication cycle, %d judged points" % (
+            {k: sorted(v) if isinstance(v, set) else v for k, v in c.items()}, mc["distinct"], tot["behaviours"], tot["judged"]))
+    if tot["judged"] == 0 or tot["multi"] == 0:
+        raise vlib.ToolError("vacuous: no judged point / no drain of several changes in the consumer replay")
+    cov["states"] += tot["states"]
+    cov["traces_validated_against_impl"] += tot["behaviours"]
+    cov["consumers"] = {"behaviours_replayed": tot["behaviours"], "judged_points": tot["judged"],
+                        "behaviours_with_several_changes_in_one_drain": tot["multi"], "keyspace_tracker_drift": tot["drift"]}
 
 
 def run(ctx):
@@ -29,7 +95,7 @@ def run(ctx):
     known_counts = {"late": 0, "skipped": 0}
     known_samples = []
     for i, c in enumerate(TIERS[ctx.tier]):
-        consts = dict(c, FixD4a=True)
+        consts = dict(c, FixD4a=True, WithConsumers=False)
         mc_cfg = vlib.cfg_text(constants=dict(consts, EmitHist=False), invariants=["C16_AddsUpModuloKnown"],
                                properties=["C16_LeftReported"])
         mc, text = vlib.run_tlc(ctx, "Membership", mc_cfg, "mc_%d" % i, workers=8, extra=["-coverage", "1"], timeout=1800)
@@ -72,6 +138,7 @@ def run(ctx):
     cov = {"states": states, "transitions": trans, "traces_validated_against_impl": hists, "samples": samples[:5],
            "exhaustive": True, "behaviours": hists, "publishes": pubs, "reads": reads,
            "known_finding_behaviours": known_counts}
+    consumers(ctx, cov)
     return vlib.finish(ctx, "model_checking", cov, ASSUMPTIONS)
 
 
